@@ -83,6 +83,10 @@ func runC16(c *Ctx, r *Report, tier string) {
 	r.Rule("ATTR", "listed attributes reach the writer", 10)
 	r.Rule("MASK", "defaults reach a writer only under an empty DefaultMask", 4)
 	r.Rule("DEEPEST", "WriteHelp walks to the deepest active command", 2)
+	r.Rule("FORMAT", "no description, name or default is used as a printf format in help.go / man.go", 5)
+	if n := c.constFormats(r, "FORMAT", "help.go", "man.go"); n < 5 {
+		r.Fail("FORMAT", "help.go, man.go", "printf-style calls found", "", fmt.Sprintf("%d, expected ≥ 5", n))
+	}
 
 	wh := c.mustFn(r, "(*Parser).WriteHelp")
 	who := c.mustFn(r, "(*Parser).writeHelpOption")
